@@ -405,7 +405,7 @@ SPECS["C07"] = dict(
 # C11: matrix-operation wrappers
 def c11_jobs(tier):
     if tier == "quick":
-        return [dict(harness="c11_ops", pattern=r"^(?!SparseGenComplexShiftSolve).*/n2$|^nonsquare/", label="all wrappers n=2, non-square shapes", deadline=280)]
+        return [dict(harness="c11_ops", pattern=r"^(?!SparseGenComplexShiftSolve).*/n2$|^nonsquare/", label="all wrappers n=2 (matrix passed as plain object, block, strided Map, expression), non-square shapes", deadline=280)]
     return [dict(harness="c11_ops", pattern=r"^(?!SparseGenComplexShiftSolve).*/n2$|^nonsquare/", label="all wrappers n=2", deadline=900),
             dict(harness="c11_ops", pattern=r"^(Dense|Sparse)(Gen|Sym|Herm)MatProd.*/n3$|^SymShiftInvert/.*/n3$|^(Dense|Sparse)Cholesky.*/n3$|^SparseRegularInverse/.*/n3$|^SparseSymShiftSolve/.*/n3$|^DenseGenRealShiftSolve/.*/n3$",
                  label="products, SymShiftInvert, Cholesky, shift solves n=3 [budgeted]", deadline=1200, cap=(20, 120), budget=True)]
@@ -418,7 +418,8 @@ SPECS["C11"] = dict(
                  "like any branch): y = A x and op*X (Gen), y = sym(A_tri) x (Sym/Herm, dense/sparse, Lower/Upper x Col/RowMajor x int/long index), (A - sigma I) y = x (real shift solves), "
                  "(A - sigma I) z = x and y = Re z (complex shift, dense), L^-T L^-1 = B^-1 and <L^-1 x, L^-1 y> = x'B^-1 y with the fill-reducing permutation (Cholesky wrappers), y = B x "
                  "(SparseRegularInverse::perform_op), (A - sigma B) y = x for the dense/sparse x dense/sparse x Lower/Upper x Lower/Upper pairings of SymShiftInvert plus a sample of storage-order / index-type "
-                 "combinations; and that NO output term mentions a junk symbol (the other triangle is never read). The CG-based SparseRegularInverse::solve is decided by taint: designated triangle and x "
+                 "combinations; the matrix argument passed as an interior block of a larger matrix, as a strided Map into a larger buffer and as an expression (junk around it must not be read); "
+                 "and that NO output term mentions a junk symbol (the other triangle is never read). The CG-based SparseRegularInverse::solve is decided by taint: designated triangle and x "
                  "numeric, other triangle junk - no branch and no output may depend on junk, and the concrete result solves the system of the designated triangle. Non-square shapes up to 4x4 raise "
                  "std::invalid_argument in all ten wrappers that document it."),
     functions=["perform_op / operator* / operator() / set_shift / solve / lower_triangular_solve / upper_triangular_solve of DenseGenMatProd, DenseSymMatProd, DenseHermMatProd, SparseGenMatProd, SparseSymMatProd, "
@@ -427,7 +428,7 @@ SPECS["C11"] = dict(
     bounds={"quick": {"n": 2, "template options": "70 instantiations incl. all 16 dense/sparse x Lower/Upper pairings of SymShiftInvert + 6 storage-order/index combinations", "non-square": "all r x c, r != c, up to 4x4"},
             "thorough": {"n": "2 and 3"}},
     outside=[ROUNDING + " (backward stability)", "SparseGenComplexShiftSolve: a few residual identities stay undecided within the solver caps at n=2 (harness cases exist, not registered)",
-             "the remaining storage-order / index-type combinations of SymShiftInvert (22 of 64 instantiated)", "arguments passed as blocks / maps / expressions", "singular shifted matrices (outside the wrappers' domain)"],
+             "the remaining storage-order / index-type combinations of SymShiftInvert (22 of 64 instantiated)", "blocks / maps / expressions as arguments of the sparse wrappers (dense products and dense shift solves are covered)", "singular shifted matrices (outside the wrappers' domain)"],
     assumptions=["exact real arithmetic", "shift solves: sigma is not an eigenvalue (a zero pivot is assumed away; SparseLU failures surface as invalid_argument)"],
     policy=dict(events="violation", allow_cut=lambda case: "solve-taint" in case,
                 expected_outcomes=r"^(completed|infeasible)$|^cut:tainted branch"),
